@@ -168,7 +168,13 @@ def run_machine_replay(pid, tier, outdir, profile):
         r["replayed"] = rr["scripts"]
         with open(mm) as f:
             for line in f:
-                mism.append(json.loads(line))
+                m = json.loads(line)
+                # a malformed representation of the right function is C02's report and nobody else's
+                wf = [x for x in m["problems"] if x.startswith("WF ")]
+                other = [x for x in m["problems"] if not x.startswith("WF ")]
+                m["problems"] = wf if pid == "C02" else other
+                if m["problems"]:
+                    mism.append(m)
         os.remove(scripts)
         os.remove(logp) if r["ok"] else None
     return res, errors, mism
